@@ -29,13 +29,27 @@ ModelEq(m, o) ==
   /\ \A i \in 1..Len(m.args) : o.args[i].name = m.args[i].name /\ o.args[i].desc = m.args[i].desc /\ o.args[i].req = m.args[i].req /\ o.args[i].max = m.args[i].max
   /\ o.argsReq = m.argsReq
 
+\* Look-ups through the public API (command.go:104-138, group.go:110-136): an option is found by its long name with
+\* namespaces or by its short name, in the asked command's own tree first (groups in pre-order, options in order) and
+\* then in the parser's; Find gives the FIRST top-level command whose name or alias is the word (the parser's look-up
+\* tables, filled in order, give the last one - ArgParse.tla Resolve).
+FirstWith(opts, P(_)) == LET k == FirstIdx(opts, P) IN IF k = 0 THEN E ELSE opts[k].field
+FindExpected(m, q) ==
+  IF q.kind = "cmd" THEN LET k == FirstIdx(m.cmds, LAMBDA c : c.name = q.name \/ InSeq(c.aliases, q.name)) IN IF k = 0 THEN E ELSE m.cmds[k].name
+  ELSE LET P(o) == IF q.kind = "long" THEN o.long # E /\ o.nsLong = q.name ELSE o.short # 0 /\ <<o.short>> = q.name
+           own == IF q.cmd = 0 THEN E ELSE FirstWith(m.cmds[q.cmd].opts, P) IN
+       IF own # E THEN own ELSE FirstWith(m.opts, P)
+FindsOK(m, o) == \A i \in 1..Len(o.finds) : o.finds[i].field = FindExpected(m, o.finds[i])
+
 Judge(rec) ==
   LET o == rec.obs
       b == BuildModel(rec.fields)
       crashed == o.panic \/ o.timeout
       grey == b.grey \/ b.err = "unspec"
       good == ~crashed /\ (grey \/ (o.err = b.err /\ (b.err = "none" => ModelEq(b.model, o))))
-  IN [C19 |-> good, DRIFT |-> good,
+      \* fidelity only: the look-up API agrees with the model that was read back
+      finds == crashed \/ grey \/ b.err # "none" \/ ~("finds" \in DOMAIN o) \/ FindsOK(b.model, o)
+  IN [C19 |-> good, DRIFT |-> good /\ finds,
       C15 |-> crashed \/ ~("distinct" \in DOMAIN o) \/ o.distinct <= 1,          \* repeated on fresh parsers: the same model or the same error, message included
       grey |-> B(grey), ok |-> B(~grey /\ b.err = "none"), errtag |-> B(b.err = "ErrTag"), errdup |-> B(b.err = "ErrDuplicatedFlag"),
       errshort |-> B(b.err = "ErrShortNameTooLong"), errbool |-> B(b.err = "ErrInvalidTag")]
